@@ -179,11 +179,20 @@ class Optic:
 
         # change geometry from plane to standard
         if isinstance(surface.geometry, Plane):
+            if np.isinf(value):
+                return  # a flat surface stays a Plane
             cs = surface.geometry.cs
             # keep a conic constant given to the flat surface before
             conic = getattr(surface.geometry, 'k', 0)
             new_geometry = StandardGeometry(cs, radius=value, conic=conic)
             surface.geometry = new_geometry
+        elif np.isinf(value) and type(surface.geometry) is StandardGeometry:
+            # infinite radius: back to a Plane (a StandardGeometry with
+            # radius=inf cannot be ray traced); the conic is kept on it
+            conic = surface.geometry.k
+            surface.geometry = Plane(surface.geometry.cs)
+            if conic != 0:
+                surface.geometry.k = conic
         else:
             surface.geometry.radius = value
 
